@@ -104,14 +104,17 @@ def validate(ctx, lines, mode, tag, max_rejects=8):
 
 
 def partition(lines):
-    """Segments that can hit a recorded finding are validated in their own (small) file so that a
-    rejection there costs little and cannot exhaust the reject budget of the main trace."""
-    main, side = [], []
+    """One part per kind of segment, so that rejections of one kind cannot exhaust the reject budget of
+    the others; segments that can hit a recorded finding go to a (small) part of their own."""
+    parts = {"cert": [], "fn": [], "e2e": [], "side": []}
     for seg in split_segments(lines, is_reset):
         h = json.loads(seg[0])
         tiny = h.get("kind") == "e2e" and len(h.get("sizes", [])) >= 65536
-        (side if (h.get("pfx") == "overflow" or tiny) else main).extend(seg)
-    return main, side
+        if h.get("pfx") == "overflow" or tiny:
+            parts["side"].extend(seg)
+        else:
+            parts["e2e" if h.get("kind", "").startswith("e2e") else h.get("kind")].extend(seg)
+    return parts
 
 
 def harness_args(ctx, paths):
@@ -145,17 +148,18 @@ def check(ctx):
     summ, _ = harness(ctx, "bitswap", harness_args(ctx, paths), timeout=1500)
     log("HARNESS: %s (build %ss)" % (summ, build_s))
     lines = read_lines(paths["trace"])
-    main, side = partition(lines)
-    violations, nseg, nev = [], 0, 0
-    for part, tag in ((main, "m"), (side, "s")):
+    parts = partition(lines)
+    violations, nseg, nev, drift = [], 0, 0, []
+    for tag, part in parts.items():
         if not part:
             continue
-        s, e, rejects = validate(ctx, part, "prop", tag, max_rejects=8 if tag == "m" else 40)
+        s, e, rejects = validate(ctx, part, "prop", tag, max_rejects=40 if tag == "side" else 8)
         nseg, nev = nseg + s, nev + e
         for seg, idx in rejects:
             violations.append({"sig": classify(seg, idx), "what": what_of(seg, idx), "replay_obj": replay_obj(seg, idx, ctx.seed)})
-    # drift detector: exact conformance to the Impl transcription (never a verdict)
-    _, _, drift = validate(ctx, lines, "impl", "d", max_rejects=5)
+        # drift detector: exact conformance to the Impl transcription (never a verdict)
+        _, _, d = validate(ctx, part, "impl", "d" + tag, max_rejects=3)
+        drift += d
     for seg, idx in drift:
         log("NOTE drift: real code deviates from the Impl layer at %s" % seg[idx - 1][:300])
     segs = split_segments(lines, is_reset)
